@@ -14,13 +14,13 @@ Rcpts == {"F1", "F2"}
 EntriesFor(AA) ==
   { E("bps", v, "OK", r) : v \in BpsVals, r \in Rcpts } \cup { E("bps", 0, "U32MAX", "F1") }
   \cup { E("fix", v, "OK", r) : v \in {1, AA - 1, AA, AA + 1, 0}, r \in Rcpts }
-  \cup { E("fix", 5, vc, "F1") : vc \in {"NEG", "FRAC", "ALPHA", "EMPTY", "PLUS", "LEADZERO", "BIG256"} }
+  \cup { E("fix", 5, vc, "F1") : vc \in {"NEG", "FRAC", "ALPHA", "EMPTY", "PLUS", "LEADZERO", "BIG256", "SPACE", "TRAILSP", "NEWLINE", "TAB"} }
   \cup { E("bps", 100, "OK", to) : to \in {"INVALID", "EMPTY", "U", "DUST", "ORB"} }
   \cup { E("fix", 1, "OK", "INVALID"), E("fix", 2, "OK", "EMPTY"), E("fix", 2, "OK", "OTHER_HRP"), E("bps", 100, "OK", "OTHER_HRP"),
          E("notype", 0, "OK", "F1") }
 SmallEntriesFor(AA) ==
   { E("bps", v, "OK", "F1") : v \in {1, 5000, 10000, 0, 10001} } \cup { E("bps", 3333, "OK", "F2") }
-  \cup { E("fix", v, "OK", "F2") : v \in {1, AA - 1, AA, 0} } \cup { E("fix", 5, "NEG", "F1"), E("bps", 100, "OK", "INVALID"),
+  \cup { E("fix", v, "OK", "F2") : v \in {1, AA - 1, AA, 0} } \cup { E("fix", 5, "NEG", "F1"), E("fix", 5, "SPACE", "F1"), E("fix", 5, "NEWLINE", "F2"), E("bps", 100, "OK", "INVALID"),
                                                                      E("fix", 5, "BIG256", "F1"), E("fix", 1, "OK", "INVALID"),
                                                                      E("bps", 100, "OK", "F1_MIXED"), E("fix", 1, "OK", "F1_UPPER"), E("bps", 100, "OK", "F1_SPACE"),
                                                                      E("bps", 100, "OK", "ORB_MIXED"), E("fix", 1, "OK", "OTHER_HRP"),
